@@ -368,4 +368,9 @@ def r6(F, R):
     c05.r2(F, R)
 
 
-RULES = [("R1", r1, None), ("R2", r2, None), ("R3", r3, None), ("R4", r4, None), ("R5", r5, None), ("R6", r6, None)]
+def r7_setters(F, R):
+    """`fail_fast()` stores `true` in the flag (runner) / forwards to it (Cucumber)."""
+    roles.check_all_builder_setters(F, R, only=r"^fail_fast$", floor=2)
+
+
+RULES = [("R1", r1, None), ("R2", r2, None), ("R3", r3, None), ("R4", r4, None), ("R5", r5, None), ("R6", r6, None), ("R7", r7_setters, None)]
